@@ -37,14 +37,19 @@ EXPLANATION = (
     '--wipe refused only without meson-private); R4a every call in msetup that publishes that state runs while `with DirectoryLock(...)` '
     'is held (here or at every call site); R4b every DirectoryLock implementation (its __enter__ together with the self-helpers it calls) '
     'acquires through a kernel primitive on the open descriptor (flock/locking), failure to acquire being decided by that primitive only; '
-    'R5 the namespace that read_cmd_line_file filled is the one the Interpreter is built from, and the replay dominates the construction. '
+    'R5 the namespace that read_cmd_line_file filled is the one the Interpreter is built from, and the replay dominates the construction; '
+    'R6 wherever msetup copies or opens a recovery-critical file by name (the backup before a wipe), its absence in a partial build '
+    'directory is survivable: a FileNotFoundError handler encloses the call or an existence test of that very name dominates it; '
+    'R7 a file that a configuration-time function reads back with pickle/json.load and itself rewrites in place under the same symbolic '
+    'name is read tolerantly (handler for what a torn file raises). '
     'A violation is reported only where every call/condition of the judged region was classified; otherwise the verdict is Undecided. '
     'NOT decided: recoverability at each individual crash point; fsync/durability; torn *text* in cmd_line.txt (configparser.Error / '
     'literal_eval on a half-written line; unreachable once R1 holds); the order of publication between coredata.dat and cmd_line.txt (a '
     'first setup killed in between leaves a valid coredata.dat without cmd_line.txt: values survive, a later --wipe loses them); the '
     '--wipe deletion loop, which removes cmd_line.txt and the machine files by directory listing while their only copy is in a '
     'TemporaryDirectory (names come from os.listdir, not from constants, so R1 cannot see them); option-order and whitespace fidelity of '
-    'cmd_line.txt (C07/C08 matters).')
+    'cmd_line.txt (C07/C08 matters); robustness of the recursive delete helpers (windows_proof_rmtree / _make_tree_writable) against '
+    'directory contents such as dangling symlinks in a half-wiped tree (depends on run-time directory contents).')
 ASSUMPTIONS = [
     'os.replace/os.rename within one directory is atomic; a killed process loses no page cache (fsync not required)',
     'a strict prefix of a pickle stream makes pickle.load raise UnpicklingError or EOFError (probed once on every prefix of a sample)',
@@ -1834,6 +1839,148 @@ def r5_replay(ctx: RuleCtx) -> None:
     ctx.floor('Interpreter constructions in msetup', n, 1)
 
 
+# ---------------------------------------------------------------------------
+# R6 / R7
+
+def _absence_guarded(ctx: RuleCtx, ps: PathSym, ref: FuncRef, cfg: CFG, call: ast.Call, name_expr: ast.AST, excs: T.Sequence[str]) -> T.Optional[bool]:
+    """Is the failure of `call` when the file named by name_expr is absent/short (one of excs) handled where it happens?
+    True: a covering handler / contextlib.suppress encloses it, or an existence test of that same name dominates it.
+    False: positively not.  None: a condition on the way mentions the name in a form the rule does not understand."""
+    mod, fn = ref.mod, ref.node
+    tries, _ = _enclosing_tries(mod, fn, call)
+    for tr in tries:
+        if all(_first_handler(ctx.repo, tr, e) is not None for e in excs):
+            return True
+    if all(_suppressed(mod, fn, call, _ancestors(ctx.repo, e)) for e in excs):
+        return True
+    want = ps.resolve(ref, name_expr)
+    names = {n.id for n in ast.walk(name_expr) if isinstance(n, ast.Name)}
+    unknown = False
+
+    def exists_test(test: ast.AST, label: bool) -> bool:
+        nonlocal unknown
+        if isinstance(test, ast.UnaryOp) and isinstance(test.op, ast.Not):
+            return exists_test(test.operand, not label)
+        if isinstance(test, ast.BoolOp):
+            if (isinstance(test.op, ast.And) and label) or (isinstance(test.op, ast.Or) and not label):
+                return any(exists_test(v, label) for v in test.values)
+            return False
+        if isinstance(test, ast.Name):
+            d = ps.local_defs(fn).get(test.id, [])
+            if len(d) == 1 and d[0] is not None:
+                return exists_test(d[0], label)
+        if isinstance(test, ast.Call):
+            cn = call_name(test) or ''
+            arg = test.args[0] if test.args else (test.func.value if isinstance(test.func, ast.Attribute) else None)
+            if cn in ('os.path.exists', 'os.path.isfile', 'os.path.lexists') or (call_method(test) in ('exists', 'is_file') and not test.args):
+                if arg is not None and (norm(arg) == norm(name_expr) or (ps.resolve(ref, arg) == want and len(want) == 1)):
+                    return label
+                return False
+            if names & {n.id for n in ast.walk(test) if isinstance(n, ast.Name)}:
+                unknown = True
+        return False
+
+    at = cfg.node_containing(call)
+    if not at:
+        return None
+    reach = cfg.reachable([cfg.entry], edge_ok=lambda a, b, lab: not (a.kind == 'test' and lab in (True, False) and exists_test(a.ast.test, lab)))  # type: ignore[union-attr]
+    if not any(n.id in reach for n in at):
+        return True
+    return None if unknown else False
+
+
+def r6_backup(ctx: RuleCtx) -> None:
+    """validate_dirs accepts a partial build directory (meson-private without its files), so wherever msetup copies or opens a
+    recovery-critical file by name the absence of that file must be survivable: handler for FileNotFoundError, or an
+    existence test of that very name."""
+    mod = ctx.repo.module(MSETUP)
+    ps = PathSym(ctx.repo)
+    n = 0
+    for qn, fn in mod.funcs().items():
+        ref = FuncRef(mod, qn)
+        cfg: T.Optional[CFG] = None
+        for s in _sinks(fn, set()):
+            src = s.src if s.kind in ('copy', 'rename') else (s.path if s.kind == 'read' else None)
+            if src is None:
+                continue
+            terms = ps.resolve(ref, src)
+            hit = sorted({b for b in (_prot_base(t, REFERENCE_PROTECTED) for t in terms) if b})
+            if not hit:
+                continue
+            n += 1
+            cfg = cfg or CFG(fn)
+            v = _absence_guarded(ctx, ps, ref, cfg, s.call, src, ['FileNotFoundError'])
+            if v is None:
+                raise Undecided(f'{qn}: cannot tell whether `{short(s.call)}` is protected against a missing {hit[0]}')
+            ctx.require(v, f'{qn}: `{short(s.call)}` may name {hit[0]}; its absence (partial build directory) is handled: FileNotFoundError handler or existence test of that name',
+                        mod, qn, s.call, f'`{short(s.call)}` may name meson-private/{hit[0]} ({P.show_all(terms)}), which a killed first setup or wipe leaves missing, '
+                        f'yet no handler for FileNotFoundError encloses it and no existence test of that name dominates it: `meson setup --wipe` dies on a partial build directory', s.call)
+    ctx.floor('copies/reads of recovery-critical files by name in msetup', n, 1)
+
+
+LOADERS = {'pickle.load': ('EOFError', 'UnpicklingError'), 'json.load': ('ValueError',)}
+
+
+def r7_readback(ctx: RuleCtx) -> None:
+    """A file that a configuration step both writes in place and reads back (same symbolic name in one function) is state a killed
+    run can leave torn: either it is published atomically (R1 idiom) or the read-back converts what a torn file raises."""
+    ps = PathSym(ctx.repo)
+    files = [f for f in _scope(ctx) if f.startswith(('mesonbuild/backend/', 'mesonbuild/msetup', 'mesonbuild/mintro', 'mesonbuild/build', 'mesonbuild/coredata',
+                                                    'mesonbuild/environment', 'mesonbuild/interpreter/'))]
+    pairs = 0
+    scanned = 0
+    for rel in files:
+        text = ctx.repo.read(rel)
+        if not any(l in text for l in LOADERS) or 'open(' not in text:
+            continue
+        mod = ctx.repo.module(rel)
+        for qn, fn in mod.funcs().items():
+            loads = [c for c in walk_no_nested(fn) if isinstance(c, ast.Call) and call_name(c) in LOADERS]
+            if not loads:
+                continue
+            scanned += 1
+            ref = FuncRef(mod, qn)
+            sinks = _sinks(fn, set())
+            opens = {id(s.call): s for s in sinks if s.kind in ('read', 'write') and s.path is not None}
+            pm = mod.parent_map()
+            cfg: T.Optional[CFG] = None
+            for ld in loads:
+                # which open() feeds the loader: `with open(P, 'rb') as f: load(f)` / load(open(P, 'rb'))
+                fobj = _arg(ld, 0, 'file', 'fp')
+                src: T.Optional[Sink] = None
+                if isinstance(fobj, ast.Call) and id(fobj) in opens:
+                    src = opens[id(fobj)]
+                elif isinstance(fobj, ast.Name):
+                    for w in walk_no_nested(fn):
+                        if isinstance(w, (ast.With, ast.AsyncWith)):
+                            for i in w.items:
+                                if isinstance(i.optional_vars, ast.Name) and i.optional_vars.id == fobj.id and id(i.context_expr) in opens \
+                                        and any(x is ld for st in w.body for x in ast.walk(st)):
+                                    src = opens[id(i.context_expr)]
+                if src is None or src.kind != 'read':
+                    continue
+                rterms = ps.resolve(ref, src.path)   # type: ignore[arg-type]
+                if len(rterms) != 1:
+                    continue
+                writers = [s for s in sinks if s.kind == 'write' and s.path is not None and ps.resolve(ref, s.path) == rterms]
+                if not writers:
+                    continue
+                pairs += 1
+                cfg = cfg or CFG(fn)
+                excs = list(LOADERS[call_name(ld) or ''])
+                v = _absence_guarded(ctx, ps, ref, cfg, ld, ast.Constant(value=None), excs)
+                what = f'{rel}:{qn}: `{short(ld)}` reads back {P.show_all(rterms)}, which `{short(writers[0].call)}` writes in place'
+                if v:
+                    ctx.ok(what + f': {"/".join(excs)} from a torn file is handled')
+                else:
+                    ctx.violation(mod, qn, ld, f'`{short(ld)}` reads back {P.show_all(rterms)}, which this function rewrites in place with `{short(writers[0].call)}` '
+                                  f'(mode {writers[0].mode!r}); a run killed during that write leaves it empty or short, and the next configuration dies here with '
+                                  f'{" / ".join(excs)}: nothing converts it and the file is not published atomically', ld)
+    ctx.note(f'{scanned} function(s) with a pickle/json loader scanned; {pairs} read-back pair(s) on a name the same function rewrites in place')
+    if pairs == 0:
+        ctx.ok('no configuration-time function reads back with pickle/json a file it rewrites in place', nontrivial=False)
+
+
 RULES = [
     Rule('C09.R1', 'recovery-critical files are published atomically (temp + closed + os.replace), never opened in place', r1),
     Rule('C09.R2a', 'pickle_load converts truncated-pickle errors into MesonException', r2_pickle),
@@ -1843,4 +1990,6 @@ RULES = [
     Rule('C09.R4a', 'state is published only while the DirectoryLock is held', r4_generate),
     Rule('C09.R4b', 'DirectoryLock is a kernel lock on an open descriptor, not a lock file', r4_lock),
     Rule('C09.R5', 'the recorded command line is replayed into the Interpreter', r5_replay),
+    Rule('C09.R6', 'copies/reads of recovery-critical files in msetup survive their absence', r6_backup),
+    Rule('C09.R7', 'files read back by the function that rewrites them in place are read tolerantly', r7_readback),
 ]
